@@ -282,7 +282,8 @@ def ends_with_bracket_skipped_newline(events: list) -> bool:
 def perturb(rng, text: str) -> tuple[str, str]:
     k = rng.choice(["del_tok", "dup_tok", "indent_tabs", "indent_mixed", "indent_more", "indent_less", "trail_ws",
                     "no_final_nl", "crlf", "cr", "comment", "continuation", "bracket_nl", "fstring", "nonascii",
-                    "nul", "blank_lines", "formfeed", "eof_spaces", "unbalanced_open", "fstring_bracket"])
+                    "nul", "blank_lines", "formfeed", "eof_spaces", "unbalanced_open", "fstring_bracket",
+                    "fstring_nested", "formfeed_any", "formfeed_any"])
     lines = text.split("\n")
     if k in ("del_tok", "dup_tok"):
         toks = list(re.finditer(r"\S+", text))
@@ -333,6 +334,19 @@ def perturb(rng, text: str) -> tuple[str, str]:
     if k == "fstring_bracket":
         return k, text + rng.choice(["def h():\n    return f'('\n", "def h():\n    y = f'[' + f']'\n    return y\n",
                                      "def h():\n    return f')'\n", "def h():\n    y = f'{{'\n"])
+    if k == "fstring_nested":
+        # an f-string inside a replacement field of another, followed by further quotes (seeded change C14-1: the
+        # Python lexer counting nesting depth where the C++ lexer keeps a flag)
+        return k, text + rng.choice(['v = f"{f\'{1}\'}" + "a"\n', 'v = f"{f\'{1}\' + \'a\'}"\n',
+                                     "def tag(s):\n    return f'<{f'{s}'}>' + '!'\n",
+                                     'w = f"{f"{1}"}" + \'b\' + "c"\n', "u = f'{f'{f'{2}'}'}' 'x'\n"])
+    if k == "formfeed_any":
+        # a form feed acting as (part of) a line break anywhere, mixed with ordinary breaks (seeded change C14-2)
+        idx = [i for i, ch in enumerate(text) if ch == "\n"]
+        if not idx:
+            return k, text
+        i = rng.choice(idx)
+        return k, text[:i] + rng.choice(["\f", "\f\n", "\n\f", "\f\f\n", "\n\f\n"]) + text[i + 1:]
     if k == "nonascii":
         return k, text.replace("'a'", "'ä€'").replace("<a>", "<ä>") if rng.random() < 0.5 else text + "é = 'ü'\n"
     if k == "nul":
